@@ -119,6 +119,12 @@ def resolve_param(p, kv, n, desc, others=()):
         kind = "in"
     # non-empty spans
     spans = [j for j in range(p, n) if kv[j] < kv[j + 1]]
+    if kind == "decimal":
+        j = spans[0] if desc[1] % 2 == 0 else spans[desc[1] % len(spans)]
+        u = kv[j] + (kv[j + 1] - kv[j]) * desc[3] / 7000.0
+        if kv[j] < u < kv[j + 1]:
+            return u, "in"
+        kind = "in"
     if kind == "knot":
         inner = sorted(set(k for k in kv[p + 1:n] if a < k < b))
         if inner:
